@@ -1,6 +1,7 @@
 \* paging, exhaustive: every filter of the menu x every range x chunk sizes x scan limits on every
 \* chain of <= 3 blocks over {empty, one event, 4 events in 3 txs}, across the window boundary
 \* (W = 2), with restarts; repaired design
+\* measured: 173 distinct states / 210 843 transitions (each a complete paged query), depth 5
 CONSTANTS
   W = 2
   Base = 1
